@@ -231,6 +231,29 @@ def run(chk):
         if stats["cases"] % 40 == 1:
             chk.sample({"selector": sel, "population": [type(o).__name__ + str(o.k) for o in pop], "calls": calls,
                         "events": len(events)})
+    # the meta events of the method (oracle only): #enter is delivered before the receiver parameter is captured
+    for hv in ("#enter", "#exit", "#value"):
+        for form in ("o0.meth > %s", "o1.meth(x) > %s"):
+            pop = [mod.P(1), mod.P(1), mod.U(2)]
+            env = dict(mod.__dict__)
+            env.update({"o%d" % i: o for i, o in enumerate(pop)})
+            sel = form % hv
+            probed = pop[int(sel[1])]
+            with ptera.probing(sel, env=env) as pr:
+                evs = pr.accum()
+                for o in (pop[0], pop[1], pop[0], pop[1]):
+                    o.meth(3)
+            chk.count(("meta", sel), nontrivial=True)
+            chk.dist("meta-event focus")
+            if len(evs) == 2:
+                continue
+            if hv == "#enter" and len(evs) == 4 and chk.is_known("F24b"):
+                chk.known_finding("F24b", "%s (delivered before the receiver parameter is captured) fires for every "
+                                  "receiver" % sel)
+                stats["known_F24"] += 1
+            else:
+                chk.violation("oracle", "selector %r fired %d times for 2 calls on the probed receiver and 2 on another" % (
+                    sel, len(evs)), {"selector": sel, "events": treegen.snap_json(list(evs))})
     # property / decorator access paths resolve to the underlying function
     with ptera.probing("P.prop > v", env=mod.__dict__).values() as evs:
         a = mod.P(3).prop
